@@ -436,3 +436,9 @@ PLAN["C06"]["units"] = PLAN["C06"]["units"] + SERVE_UNITS
 PLAN["C06"]["trusted_base"] = PLAN["C06"]["trusted_base"] + LIB_SERVE
 # C13 / C11: the handshake is read from the header list whatever the case of the names
 PLAN["C13"]["units"] = PLAN["C13"]["units"] + HKU
+# WebSocket over HTTP/2 and application messages on HTTP/2: the HTTP/2 unit group under C11 and C12
+for _p in ("C11", "C12"):
+    _extend(_p, _H2_GROUP + [HP + "__init__"])
+    if LIB_H2[0] not in PLAN[_p]["trusted_base"]:
+        PLAN[_p]["trusted_base"] = PLAN[_p]["trusted_base"] + LIB_H2
+_extend("C12", [H1P + "stream_send"])
